@@ -1016,22 +1016,32 @@ def describe(prog, body, x, depth=0, seen=None):
 
 def _describe_place(prog, body, pl, depth, seen):
     l = pl["l"]
-    fields = [e for e in pl["p"] if e[0] == "f"]
-    if body.kind in ("closure", "coroutine") and l == 1 and fields:
-        f0 = fields[0][1]
+    projs = [e for e in pl["p"] if e[0] in ("f", "i", "ci")]
+    if body.kind in ("closure", "coroutine") and l == 1 and projs and projs[0][0] == "f":
+        f0 = projs[0][1]
         base = ("upvar", f0, next((u["name"] for u in body.upvars if u["field"] == f0), None))
-        fields = fields[1:]
+        projs = projs[1:]
     else:
         base = _describe_local(prog, body, l, depth, seen)
-    for f in fields:
-        idx = f[1]
-        if base[0] == "variant" and idx < len(base[3]):
-            base = base[3][idx]
-        elif base[0] in ("tuple", "array") and idx < len(base[1]):
-            base = base[1][idx]
+    for f in projs:
+        if f[0] == "f":
+            idx = f[1]
+            if base[0] == "variant" and idx < len(base[3]):
+                base = base[3][idx]
+            elif base[0] in ("tuple", "array") and idx < len(base[1]):
+                base = base[1][idx]
+            else:
+                base = ("field", base, idx)
+        elif f[0] == "i":
+            base = ("index", base, _describe_local(prog, body, f[1], depth + 1, seen))
         else:
-            base = ("field", base, idx)
+            base = ("index", base, ("lit", f[1]))
     return base
+
+
+def describe_rv(prog, body, rv):
+    """Description of a statement's right-hand side."""
+    return _describe_def(prog, body, (None, None, "assign", {"rv": rv}), 0, set())
 
 
 def _describe_local(prog, body, l, depth, seen):
